@@ -35,6 +35,7 @@ def _one(ctx, module, chunk, idx, label, timeout, cfg):
     rej = {}
     for m in re.finditer(r'<<"REJ", (-?\d+), "([^"]*)", (-?\d+)>>', res.out):
         rej[int(m.group(1))] = (m.group(2), int(m.group(3)))
+    res.drift_ids = [int(x) for x in re.findall(r'<<"DRIFT", (-?\d+)>>', res.out)]
     m = re.search(r'<<"ACCEPTED", (\d+), (\d+)>>', res.out)
     if not m:
         raise MachineryError('no ACCEPTED line from %s chunk %d:\n%s'
@@ -61,6 +62,7 @@ def validate(ctx, module, traces, label=None, chunks=16, timeout=900, cfg=None,
     n = max(1, min(chunks, (len(traces) + min_chunk - 1) // min_chunk))
     parts = [traces[i::n] for i in range(n)]
     rejected = {}
+    ctx.last_drift = []
     with ThreadPoolExecutor(max_workers=n) as ex:
         futs = [ex.submit(_one, ctx, module, p, i, label, timeout, cfg)
                 for i, p in enumerate(parts)]
@@ -69,6 +71,7 @@ def validate(ctx, module, traces, label=None, chunks=16, timeout=900, cfg=None,
         for f in futs:
             res, rej = f.result()
             rejected.update(rej)
+            ctx.last_drift += res.drift_ids
             agg_gen += res.generated
             agg_dist += res.distinct
             wall = max(wall, res.wall)
